@@ -108,16 +108,11 @@ def main(only=None):
         shutil.rmtree(SCRATCH)
     subprocess.run(["rsync", "-a", "--exclude", "target", "--exclude", ".git", "/repo/", SCRATCH + "/"], check=True)
     bad = 0
-    # save evidence written against /repo: the selftest must not overwrite it
-    ev_dir = os.path.join(VERIF, "evidence")
-    ev_bak = "/tmp/verif_selftest_evidence"
-    if os.path.exists(ev_bak):
-        shutil.rmtree(ev_bak)
-    shutil.copytree(ev_dir, ev_bak)
+    # (evidence of runs against a tree other than /repo goes to build/evidence_other: nothing to save or restore here)
     try:
         for group, cases in (("breaking", BREAKING), ("harmless", HARMLESS)):
             for (name, f, old, new, expect) in cases:
-                if only and only != name:
+                if only and name not in only.split(","):
                     continue
                 if not expect:
                     continue
@@ -137,9 +132,6 @@ def main(only=None):
                 finally:
                     open(p, "w").write(src)
     finally:
-        shutil.rmtree(ev_dir)
-        shutil.copytree(ev_bak, ev_dir)
-        shutil.rmtree(ev_bak)
         shutil.rmtree(SCRATCH, ignore_errors=True)
         import glob
         for d in glob.glob(os.path.join(VERIF, "build", "native_*")):
